@@ -1,11 +1,12 @@
 """C05 - no input data and no parsable expression can make jawk panic or hang"""
-from ..scen_parser import tokenizer
+from ..scen_parser import tokenizer, selfcheck
 from ..scen_kernels import kernels
 from ..scen_expr import truncation
 from ..scen_readinput import read_input
 
 
 def run(ctx):
+    selfcheck(ctx)
     n = 3 if ctx.quick else 4
     tokenizer(ctx, n, ['tok.nopanic', 'tok.progress', 'tok.garbage'], f'full alphabet n={n}')
     read_input(ctx, ['read.nopanic'])
